@@ -98,6 +98,10 @@ type FnGen struct {
 	retSites    int
 	curInstr    ssa.Instruction
 	xexits      []xexit // exceptional exits (call may panic)
+	track       map[string]Term
+	trackOrder  []string
+	callRes     map[string][]Term
+	callReach   map[string]string
 }
 
 type xexit struct {
@@ -121,9 +125,9 @@ type debugRef struct {
 	idx    int
 }
 
-func (g *FnGen) emit(s string)                { g.lines = append(g.lines, s) }
-func (g *FnGen) note(s string)                { g.assumptions[s] = true }
-func (g *FnGen) fresh(prefix string) string    { g.n++; return q(fmt.Sprintf("%s!%d", prefix, g.n)) }
+func (g *FnGen) emit(s string)              { g.lines = append(g.lines, s) }
+func (g *FnGen) note(s string)              { g.assumptions[s] = true }
+func (g *FnGen) fresh(prefix string) string { g.n++; return q(fmt.Sprintf("%s!%d", prefix, g.n)) }
 func (g *FnGen) assume(reach, f string) {
 	if reach == "" || reach == "true" {
 		g.emit(fmt.Sprintf("(assert %s)", f))
@@ -174,6 +178,18 @@ func (g *FnGen) safe(kind string, reach, cond string, pos token.Pos) {
 // ---------------------------------------------------------------- heap helpers
 
 func (g *FnGen) hget(st *State, key string) Term {
+	if g.track != nil {
+		defer func() {
+			if _, seen := g.track[key]; !seen {
+				g.track[key] = g.hgetRaw(st, key)
+				g.trackOrder = append(g.trackOrder, key)
+			}
+		}()
+	}
+	return g.hgetRaw(st, key)
+}
+
+func (g *FnGen) hgetRaw(st *State, key string) Term {
 	if t, ok := st.heap[key]; ok {
 		return t
 	}
@@ -287,6 +303,34 @@ func (g *FnGen) clauses(kind string) []*Clause {
 	for _, c := range g.con.Clauses {
 		if c.Kind == kind {
 			out = append(out, c)
+		}
+	}
+	// clauses inherited from implemented interface / func-type contracts (behavioural subtyping)
+	for _, ik := range g.con.Implements {
+		ic := g.w.contracts[ik]
+		if ic == nil {
+			panic(specError(fmt.Sprintf("%s implements unknown contract %s", g.key, ik)))
+		}
+		ren := map[string]string{}
+		for i, pn := range ic.Params {
+			if i < len(g.fn.Params) {
+				ren[pn] = g.fn.Params[i].Name()
+			}
+		}
+		// closures: the func value itself is the first contract parameter
+		if len(ic.Params) == len(g.fn.Params)+1 {
+			ren = map[string]string{}
+			for i, pn := range ic.Params[1:] {
+				ren[pn] = g.fn.Params[i].Name()
+			}
+		}
+		for _, c := range ic.Clauses {
+			if c.Kind == kind && (kind == "ensures" || kind == "requires" || kind == "xensures") {
+				cc := *c
+				cc.Label = "iface." + c.Label
+				cc.Rename = ren
+				out = append(out, &cc)
+			}
 		}
 	}
 	return out
@@ -710,7 +754,7 @@ func (g *FnGen) load(p *PtrDesc, st *State, reach string, pos token.Pos) Term {
 		return g.hget(st, p.key)
 	case "elem":
 		ss := p.base.Sort
-		return Term{fmt.Sprintf("(select (select %s (arr_%s %s)) (+ (off_%s %s) %s))", g.hget(st, p.key).S, ss, p.base.S, ss, p.base.S, p.idx.S), p.sort}
+		return Term{g.w.elemTerm(ss, p.sort, g.hget(st, p.key).S, p.base.S, p.idx.S), p.sort}
 	case "struct":
 		stt := types.Unalias(p.typ).Underlying().(*types.Struct)
 		var fs []string
